@@ -45,6 +45,10 @@ type c09Plan struct {
 	// RolloutCycle: before anything else a rollout target is deployed, a split set, stopped and set again; that target,
 	// too, keeps being probed to the end
 	RolloutCycle bool `json:"rollout_cycle,omitempty"`
+	// Refused > 0: with a second service on another host in place, one more command on the service is refused before
+	// anything else happens (1: redeploy onto the other service's host, 2: redeploy onto a dead target, 3: rollout
+	// deploy of a dead target) - the targets in place keep being probed as if it had never been issued
+	Refused int `json:"refused,omitempty"`
 }
 
 func c09Gen(t *rapid.T) c09Plan {
@@ -92,6 +96,10 @@ func c09Gen(t *rapid.T) c09Plan {
 	p.Restart = rapid.IntRange(0, 3).Draw(t, "restart") == 0
 	p.RestoreSlow = p.Restart && rapid.Bool().Draw(t, "restore-slow")
 	p.RolloutCycle = rapid.IntRange(0, 4).Draw(t, "rollout-cycle") == 0
+	if rapid.IntRange(0, 2).Draw(t, "refused?") == 0 {
+		p.Refused = rapid.IntRange(1, 3).Draw(t, "refused")
+		p.RolloutCycle = p.RolloutCycle || rapid.IntRange(0, 2).Draw(t, "refused-with-rollout") > 0
+	}
 	p.Together = p.N >= 2 && rapid.IntRange(0, 3).Draw(t, "together") > 0
 	p.DrainAt = -1
 	if rapid.IntRange(0, 2).Draw(t, "drain-episode") == 0 {
@@ -164,6 +172,30 @@ func c09Run(t *testing.T, p c09Plan) (res vfResult) {
 			}
 			res.label("rollout-set-stopped-and-set-again")
 		}
+		if p.Refused > 0 {
+			w.target("ot0:80")
+			w.target("dead9:80").setDown(true)
+			oo := ServiceOptions{Hosts: []string{"other.test"}, TLSRedirect: true}
+			oo.Normalize()
+			if err := vfDeploy(r, "other", []string{"ot0:80"}, oo, to, 5*time.Second, time.Second); err != nil {
+				res.failf("setup-failed", "deploy of the second service: %v", err)
+				return
+			}
+			var err error
+			switch p.Refused {
+			case 1:
+				err = vfDeploy(r, "svc", names, oo, to, 5*time.Second, time.Second)
+			case 2:
+				err = vfDeploy(r, "svc", []string{"dead9:80"}, opts, to, 300*time.Millisecond, time.Second)
+			case 3:
+				err = vfRolloutDeploy(r, "svc", []string{"dead9:80"}, 300*time.Millisecond, time.Second)
+			}
+			if err == nil {
+				res.failf("setup-failed", "the command that had to be refused (kind %d) succeeded", p.Refused)
+				return
+			}
+			res.label(fmt.Sprintf("refused-command-before:%d", p.Refused))
+		}
 		synctest.Wait()
 		var r2 *Router
 		if p.Restart {
@@ -178,6 +210,9 @@ func c09Run(t *testing.T, p c09Plan) (res vfResult) {
 			if err := vfRemove(r, "svc"); err != nil { // the old process is gone, and its probing with it
 				res.failf("setup-failed", "remove: %v", err)
 				return
+			}
+			if p.Refused > 0 {
+				vfRemove(r, "other")
 			}
 			synctest.Wait()
 		}
